@@ -211,7 +211,9 @@ def _head(draw, arity, names, simple, idx_bias):
 
 
 @st.composite
-def nonrec_cases(draw, simple=False, allow_shared=None, nonground_facts=None):
+def nonrec_cases(draw, simple=None, allow_shared=None, nonground_facts=None):
+    if simple is None:
+        simple = draw(st.integers(0, 4)) == 0  # flat terms only: the Datalog part of the space
     npred = draw(st.integers(1, 4))
     use_mem = (not simple) and draw(st.integers(0, 3)) == 0
     if allow_shared is None:
@@ -645,7 +647,8 @@ def findall_cases(draw, nested=False, max_prob_statements=4):
 
         args, new = qargs(p, [])
         goals = [["call", p[0], args]]
-        shape = draw(st.sampled_from([0, 1, 2, 3, 4, 5, 6, 6, 7, 7, 7, 7]))
+        shape = draw(st.sampled_from([0, 1, 2, 3, 4, 5, 5, 5, 5, 5, 6, 7] if nested else
+                                     [0, 1, 2, 3, 4, 6, 6, 6, 7, 7, 7, 7]))
         if shape <= 1:
             p2 = draw(st.sampled_from(preds))
             a2, n2 = qargs(p2, new)
